@@ -1,0 +1,41 @@
+//go:build verif
+// +build verif
+
+package m3
+
+import tally "github.com/uber-go/tally/v4"
+
+// This file exists only under the "verif" build tag (see ../verif_shims.go).
+
+// VerifMetricSize returns the size charged for a metric allocated from the
+// reporter by AllocateCounter, AllocateGauge or AllocateTimer, or -1.
+func VerifMetricSize(m interface{}) int32 {
+	if c, ok := m.(cachedMetric); ok {
+		return c.size
+	}
+	return -1
+}
+
+// VerifBucketSizes returns the sizes charged for the buckets of a histogram
+// allocated from the reporter, in bucket order.
+func VerifBucketSizes(h tally.CachedHistogram) []int32 {
+	ch, ok := h.(cachedHistogram)
+	if !ok {
+		return nil
+	}
+	bs := ch.cachedValueBuckets
+	if len(bs) == 0 {
+		bs = ch.cachedDurationBuckets
+	}
+	out := make([]int32, len(bs))
+	for i := range bs {
+		out[i] = bs[i].metric.size
+	}
+	return out
+}
+
+// VerifFreeBytes returns the per-batch payload budget of the reporter.
+func VerifFreeBytes(r Reporter) int32 { return r.(*reporter).freeBytes }
+
+// VerifOverheadBytes returns the per-batch overhead the reporter reserves.
+func VerifOverheadBytes(r Reporter) int32 { return r.(*reporter).overheadBytes }
